@@ -158,6 +158,9 @@ func cmdCheck(args []string) int {
 	seed, _ := strconv.Atoi(os.Getenv("VERIF_SEED"))
 	start := time.Now()
 	home := verifDir()
+	if d := os.Getenv("HOPVC_OUT"); d != "" {
+		home = d // mutant / selftest runs write their evidence and replays elsewhere
+	}
 	evPath := filepath.Join(home, "evidence", id+".json")
 	os.MkdirAll(filepath.Dir(evPath), 0o755)
 	os.Remove(evPath)
